@@ -253,8 +253,21 @@ def obs_line(o):
     else:
         op = "/".join(f"{k}:{o['op'][k][0]}:{o['op'][k][1]}" for k in ("j", "l", "b") if k in o["op"])
     err = 1 if (o["exc"] or "").endswith("AssertionError") else 0
+    priv = o.get("priv") or ()
+    if len(priv) == 3 and all(p != "n/a" for p in priv):
+        # private membership fields (compared with the model only while the attributes exist under these names)
+        last = "-" if priv[2] is None else str(round((_time_fn() - priv[2]) * 1000))
+        mem = f"{s(priv[0])},{s(priv[1])},{last}"
+    else:
+        mem = "?"
     return (f"ret={ret} st={o['st']} tx={1 if o['tx'] else 0} cid={s(o['cid'])} info={info} op={op} "
-            f"nv={o['nv']} nc={o['nc']} err={err}")
+            f"nv={o['nv']} nc={o['nc']} err={err} mem={mem}")
+
+
+def same_obs(real_line, model_line):
+    if real_line.endswith("mem=?"):
+        return real_line.rsplit(" mem=", 1)[0] == model_line.rsplit(" mem=", 1)[0]
+    return real_line == model_line
 
 
 class Real:
@@ -377,8 +390,8 @@ class Oracle:
         else:
             if st != "L" and o["cid"] is not None:
                 bad.append(("cluster-id-outside-membership", o["cid"]))
-            if have_priv and all(p is not None for p in priv):
-                bad.append(("membership-outside-passive", st))
+            if have_priv and any(p is not None for p in priv):
+                bad.append(("membership-outside-passive", f"state {st}, joined/leader/timer {priv}"))
         if not o["tx"] and st not in ("I", "P"):
             bad.append(("suppressed-outside-passive-idle", st))
         # ---- entering / keeping membership
@@ -588,7 +601,7 @@ class Batch:
         for case, start, n, robs in self.items:
             for i, (a, mline) in enumerate(zip(robs, out[start + 1:start + n])):
                 b = mline.split(" # ")[0]
-                if a != b:
+                if not same_obs(a, b):
                     ctx.mismatch("cluster.seq", {"clock": case.get("clock", "fraction"), "base": case.get("base", 1_000_000),
                                                  "ops": case["ops"][:i + 1]}, a, b)
                     break
@@ -746,7 +759,7 @@ def explore(ctx, var, jobs, alpha):
                 b, _, dig = out[idx].partition(" # ")
                 if not job["exact"]:
                     dig = dig.split(" ## ")[0] + " " + " ".join(t for t in b.split() if t[:3] in ("nv=", "nc="))
-                if a != b:
+                if not same_obs(a, b):
                     ctx.mismatch("cluster.exhaustive", {"root": job["root"], "ops": [[x, list(y)] for x, y in path]}, a, b)
                     continue
                 ctx.cover(f"ex_{kind}_{st}")
